@@ -333,6 +333,17 @@ class C04(Check):
                 for tail in (b"", b"\x00" * 64):
                     add("reser %s %s %s" % (sz, T, hx(leb(v) + tail)), "caplen-" + T)
 
+        # ---- (2a) extra nonces of every small length under every leading marker byte (0x00 = 32-byte payment id, 0x01 = 8-byte
+        # encrypted payment id by wallet convention - the library must not assume the conventional length), formatted after parsing
+        for first in (0x00, 0x01, 0x02, 0x7f, 0xff):
+            for n in (0, 1, 2, 3, 8, 9, 10, 16, 32, 33, 34, 64, 255):
+                payload = (bytes([first]) + b"\x11" * (n - 1)) if n else b""
+                for ex in (b"\x02" + leb(n) + payload, b"\x01" + b"\x09" * 32 + b"\x02" + leb(n) + payload,
+                           b"\x02" + leb(n) + payload + b"\x02" + leb(n) + payload):
+                    txb = b"\x02\x00\x01\xff\x05\x01\x00\x02" + b"\x09" * 32 + leb(len(ex)) + ex + b"\x00"
+                    po("tx", txb, "extra-nonce-shapes")
+                    po("prefix", txb[:-1], "extra-nonce-shapes")
+
         # ---- (2b) two-dimensional shapes: the MLSAG matrix of a RingCT "Full" transaction has (ring size of input 0) rows of
         # (inputs + 1) columns, both backed by real bytes of the prefix; the input ends before (or shortly after) the matrix
         # begins.  A decoder that reserves rows x columns at once takes memory quadratic in the input length here
